@@ -315,6 +315,10 @@ def rule_counts(ck):
     # the observed counts are those of the catalog's current events, region and bins (no memo that outlives a filter)
     ck.clause('shared C03-D6 (gridded counts are recomputed from the current events)')
     c03.rule_pure_gridding(ck)
+    # ... located with their own coordinates, longitude as longitude (a transposed lookup counts the events of another catalog)
+    from . import c01
+    ck.clause('shared C01-D2 (the region is asked about the stored coordinates, in the order (lons, lats))')
+    c01.rule_raw_coordinates(ck)
 
 
 def rule_rates_view(ck):
